@@ -145,6 +145,8 @@ def norm(v, err):
 
 
 def describe(sched):
+    if isinstance(sched, dict):
+        return sched
     if len(sched) > 12:
         return {'n_chunks': len(sched), 'head': sched[:6], 'tail': sched[-3:]}
     return sched
@@ -158,9 +160,14 @@ def check_image(fmt, data, bounds, ref, rnd, deep, wrapper=True, query=True):
     res = {'runs': 0, 'problems': [], 'retained_max': 0, 'verdicts': {}}
     scheds = schedules(len(data), bounds, rnd, deep)
     first = None
-    for si, sched in enumerate(scheds):
+    # one of the chunkings is also presented the way a readinto() loop would: memoryviews of one reused buffer
+    view_of = min(2, len(scheds) - 1)
+    runs = [(si, sched, False) for si, sched in enumerate(scheds)] + [(view_of, scheds[view_of], True)]
+    for si, sched, as_view in runs:
         q = range(0, len(sched), max(1, len(sched) // 7)) if (query and si % 2 == 0) else ()
-        r = insp.run(cls, data, sched, query_at=q)
+        r = insp.run(cls, data, sched, query_at=q, as_view=as_view)
+        if as_view:
+            sched = {'memoryview_chunks_of': describe(sched)}
         res['runs'] += 1
         res['retained_max'] = max(res['retained_max'], r['retained_max'])
         got = norm(r['verdict'], r['err'])
